@@ -16,4 +16,14 @@ int cfgv_pi_entry(struct cfg_t *cfg, int level, int force_state, struct cfg_opt_
 		  int *state, char **comment, char **opttitle, struct cfg_opt_t **opt, union cfg_value_t **val,
 		  struct cfg_opt_t *funcopt, int *ignore, int *num_values, int *result);
 #define CFG_VERIF_PI_ENTRY { int cfgv_res_; if (cfgv_pi_entry(cfg, level, force_state, force_opt, &state, &comment, &opttitle, &opt, &val, &funcopt, &ignore, &num_values, &cfgv_res_)) return cfgv_res_; }
+/* CFG_VERIF_LOOP(tag) sits between a loop header and its body and carries the loop's contract (frame, inductive
+ * invariant, variant) in CBMC's contract language.  Only the S1 loop units (goto-instrument --dfcc
+ * --apply-loop-contracts) use it: there the loop is replaced by "invariant holds on entry; havoc the frame; assume the
+ * invariant; one iteration; invariant holds again and the variant went down", which covers every iteration count.
+ * Every other unit unwinds the loop and CBMC ignores the annotation.
+ * Ghost: cfgv_term_k is the index of the option array's terminator (named by the function contract's precondition). */
+int cfgv_term_k;
+#define CFG_VERIF_LOOP(tag) CFG_VERIF_LOOP_##tag
+#define CFG_VERIF_LOOP_numopts __CPROVER_assigns(n) __CPROVER_loop_invariant(0 <= n && n <= cfgv_term_k) __CPROVER_decreases(cfgv_term_k - n)
+#define CFG_VERIF_LOOP_getnopt __CPROVER_assigns(i) __CPROVER_loop_invariant(i <= (unsigned int)cfgv_term_k && i <= index) __CPROVER_decreases(cfgv_term_k - (int)i)
 #endif
